@@ -71,6 +71,8 @@ var null = Exp{Kind: "null"}
 
 // Model computes expectations under fixed settings.
 type Model struct {
+	// Def: context fields of the DefaultContextLogger the program installed (shared: updatedefault steps change it)
+	Def *[]ExpField
 	Set Settings
 	// StrictCtx: GetCtx read inside a fresh sub-event (Dict(), Context.Object, Array.Object,
 	// Fields marshalers) must be the background context (C05); otherwise any string.
@@ -118,6 +120,16 @@ func (m Model) LevelText(l int) string {
 		return strings.ToUpper(m2.LevelText(l))
 	case "total":
 		return TotalLevelText(zerolog.Level(l))
+	case "merged":
+		switch l {
+		case -1, 0:
+			return "DEBUG"
+		case 3, 4, 5:
+			return "ERROR"
+		}
+		m2 := m
+		m2.Set.LevelMarshal = ""
+		return strings.ToUpper(m2.LevelText(l)) // Level.String() under the configured level values
 	}
 	p := ""
 	if m.Set.LevelValues != nil {
@@ -666,6 +678,22 @@ func (m Model) ApplyStep(par *LoggerModel, stp Step, ndest *int) *LoggerModel {
 		l.Hooks = hs
 	case "level":
 		l.Level = stp.Level
+	case "updatedefault":
+		// zerolog.Ctx(context.Background()).UpdateContext(...): the program's DefaultContextLogger itself is
+		// updated through the pointer Ctx hands out; the node is a copy of it afterwards
+		if !m.Set.DefaultCtx {
+			return &LoggerModel{Level: 7, Dest: -1} // Ctx returns the shared disabled logger, which ignores updates
+		}
+		st := &evState{}
+		cx := &ctxEffects{}
+		f, _ := m.opsFieldsCx(stp.Ops, "context", st, cx)
+		f, reset := stripReset(f)
+		if reset {
+			*m.Def = append([]ExpField{}, f...)
+		} else {
+			*m.Def = append(append([]ExpField{}, *m.Def...), f...)
+		}
+		return &LoggerModel{Level: -1, Dest: 0, Fields: append([]ExpField{}, *m.Def...)}
 	case "viactx":
 		// *zerolog.Ctx(l.WithContext(ctx)): a struct copy of l — except that a Disabled logger is not
 		// stored in a context that carries none, and Ctx then returns the package's no-op logger
@@ -675,7 +703,7 @@ func (m Model) ApplyStep(par *LoggerModel, stp Step, ndest *int) *LoggerModel {
 			l = LoggerModel{Level: 7, Dest: -1}
 			if m.Set.DefaultCtx {
 				// ... unless the program has set DefaultContextLogger: then that logger it is
-				l = LoggerModel{Level: -1, Dest: 0, Fields: []ExpField{{DefaultCtxKey, strS("default-context-logger")}}}
+				l = LoggerModel{Level: -1, Dest: 0, Fields: append([]ExpField{}, *m.Def...)}
 			}
 		}
 	case "sample":
@@ -914,6 +942,11 @@ func MatchFields(got []jsonref.Member, want []ExpField, values bool) string {
 		if values {
 			if d := Match(got[i].Val, want[i].V); d != "" {
 				return fmt.Sprintf("field %q: %s", want[i].Key, d)
+			}
+		} else if want[i].V.Kind == "obj" && got[i].Val != nil && got[i].Val.Kind == jsonref.Obj {
+			// layout inside a nested object (Dict, Object, Func sub-events): the same keys in the same order
+			if d := MatchFields(got[i].Val.O, want[i].V.O, false); d != "" {
+				return fmt.Sprintf("inside field %q: %s", want[i].Key, d)
 			}
 		}
 	}
